@@ -1,6 +1,8 @@
 """A small reader for the Guile datum subset the compiler emits, a scope checker and a locking-
-discipline checker. Used only as oracles in the search for a failing input once a proof or the
-correspondence broke — never as the deciding argument."""
+discipline checker. The reader is applied to the implementation's and the model's program alike before
+most comparisons (vlib/structproj.py: structural); the checkers are model-independent evidence
+functions (they mirror theorems C11_scoped and C16b but are not theorems) that run on every result
+of C11/C16 and in the search for a failing input. Part of the trusted harness (DESIGN.md section 7)."""
 
 DELIMS = set(" \t\r\n()\";")
 ESC = {"a": "\a", "b": "\b", "f": "\f", "n": "\n", "r": "\r", "t": "\t", "v": "\v", "0": "\0", "\\": "\\", '"': '"'}
